@@ -134,6 +134,8 @@ theorem stringToArrayIndex_idx (n : Nat) :
   · have : ¬ n < 2^32 - 1 := by omega
     simp [h63, this]
   · simp only [h63, if_false]
+    have hnat : ((n : Nat) : Int).toNat = n := by omega
+    simp only [hnat, ne_eq, not_true_eq_false, if_false]
     repeat' (first | omega | split)
 
 theorem digitsValue_decAux (fuel n : Nat) (acc : List Nat) (h : n < fuel) :
@@ -668,7 +670,7 @@ theorem wf_setLength (E : Env) (o : Obj) (d : Desc) (t : Bool) (N : Nat) (h : WF
   obtain ⟨ha, n, w, hl, hn, hb⟩ := h
   unfold arraySetLength
   simp only [arrLength_of o n w hl, lengthWritable_of o n w hl]
-  by_cases hgt : N > n
+  by_cases hgt : N ≥ n
   · simp only [hgt, if_true]
     exact wf_odp_length E o _ t n w ha hl hn hb (Or.inr ⟨N, rfl, hN, hb.mono (by omega)⟩)
   · simp only [hgt, if_false]
@@ -1108,9 +1110,8 @@ theorem arrayIndex_canonical (s : List Nat) (n : Nat) (h : Spec.arrayIndex? s = 
           intro hc; exact hlead ⟨hc, hr'⟩
         · cases h
 
-/-- **array_index (spec ⇒ otto)**: on every string that ES5 treats as an array index, stringToArrayIndex returns
-    that index; the strings on which otto returns an index although ES5 does not are the region
-    `index_noncanonical`. -/
+/-- array_index (spec ⇒ otto): on every string that ES5 treats as an array index, stringToArrayIndex returns
+    that index (the converse is `array_index_eq`). -/
 theorem array_index_agrees (s : List Nat) (n : Nat) (h : Spec.arrayIndex? s = some n) :
     stringToArrayIndexRaw s = (n : Int) := by
   obtain ⟨hs, hn⟩ := arrayIndex_canonical s n h
@@ -1118,6 +1119,30 @@ theorem array_index_agrees (s : List Nat) (n : Nat) (h : Spec.arrayIndex? s = so
   have := stringToArrayIndex_idx n
   simp only [stringToArrayIndex, Key.toBytes, hn, if_true] at this
   exact this
+
+
+/-- **array_index**: stringToArrayIndex is exactly the §15.4 array-index test, on every string -/
+theorem array_index_eq (s : List Nat) :
+    stringToArrayIndexRaw s = (match Spec.arrayIndex? s with | some n => (n : Int) | none => -1) := by
+  cases h : Spec.arrayIndex? s with
+  | some n => exact array_index_agrees s n h
+  | none =>
+    simp only [stringToArrayIndexRaw, maxUint32]
+    cases GoStd.parseInt s 10 with
+    | ok i =>
+      simp only
+      by_cases h1 : i < 0
+      · simp [h1]
+      · by_cases h2 : i ≥ 4294967295
+        · simp [h1, h2]
+        · by_cases h3 : dec i.toNat = s
+          · exfalso
+            rw [← h3, arrayIndex_dec] at h
+            have : i.toNat < 2^32 - 1 := by omega
+            simp [this] at h
+          · simp [h1, h2, h3]
+    | range => rfl
+    | «syntax» => rfl
 
 
 end OttoVerif.C08.Thm
